@@ -91,6 +91,25 @@ fn first_diff_nested(name: &str, a: &[Vec<u32>], b: &[Vec<u32>]) -> Option<Strin
 }
 
 impl Obs {
+    pub fn digest(&self) -> u64 {
+        let mut h: u64 = 0xcbf2_9ce4_8422_2325;
+        let mut eat = |x: u64| h = (h ^ x).wrapping_mul(0x0000_0100_0000_01B3);
+        for v in self.initial.iter().chain(self.params.iter()).chain(self.predictions.iter()) {
+            eat(v.len() as u64);
+            v.iter().for_each(|x| eat(*x as u64));
+        }
+        for v in [&self.train_loss, &self.val_loss, &self.val_acc] {
+            eat(v.len() as u64);
+            v.iter().for_each(|x| eat(*x as u64));
+        }
+        if let Some((a, b)) = self.validate {
+            eat(a as u64);
+            eat(b as u64);
+        }
+        self.flags_after.iter().for_each(|f| eat(*f as u64));
+        h
+    }
+
     /// (field, description) of the first difference, in the order a user would see it.
     pub fn diff(&self, other: &Obs) -> Option<(&'static str, String)> {
         if let Some(d) = first_diff_nested("initial_parameters", &self.initial, &other.initial) {
